@@ -139,6 +139,52 @@ Check C06_plaintext_decode : forall MD5 AESE AESD, (forall x, length (MD5 x) = 1
   forall filters dc fk m ms num gen iv data, decoder_for dc fk m ms -> lenN iv = 16 ->
   storage_decode (fun x => Ok (MD5 x)) (fun k iv x => Ok (AESD k iv x)) filters (Some dc) num gen
     (protect_bytes MD5 AESE m fk (k_enc_obj dc) (k_meta_obj dc) (negb (k_em dc)) num gen iv data) = filters data.
+Check C06_open_user_rc4_reads : forall MD5 SHA256 SHA384 SHA512 AESE AESD PREP, (forall x, length (MD5 x) = 16%nat) ->
+  (forall k iv x, lenN x mod 16 = 0 -> AESD k iv (AESE k iv x) = x) -> (forall k iv x, lenN (AESE k iv x) = lenN x) ->
+  forall fuel d id0 upw R n m ms tail, std_rc4_dict d R n m ms -> meth_fits n m -> meth_fits n ms ->
+  let fk := alg2 MD5 R n upw (d_o d) (d_p d) id0 (d_em d) in
+  d_u d = u_entry MD5 R fk id0 tail ->
+  exists dc, from_password (fun x => Ok (MD5 x)) (fun x => Ok (SHA256 x)) (fun x => Ok (SHA384 x)) (fun x => Ok (SHA512 x))
+                (fun k iv x => Ok (AESE k iv x)) (fun k iv x => Ok (AESD k iv x)) (fun x => Ok (PREP x)) fuel d id0 upw = Ok dc /\
+    forall enc meta num gen iv data, lenN iv = 16 ->
+      let dc' := install dc enc meta in
+      decrypt (fun x => Ok (MD5 x)) (fun k iv x => Ok (AESD k iv x)) dc' num gen (protect_bytes MD5 AESE m fk enc meta (negb (k_em dc)) num gen iv data) = Ok data /\
+      ctx_decrypt (fun x => Ok (MD5 x)) (fun k iv x => Ok (AESD k iv x)) (Some dc') num gen (protect_bytes MD5 AESE ms fk enc meta (negb (k_em dc)) num gen iv data) = Ok data.
+Check C06_open_user_56_key : forall MD5 SHA256 SHA384 SHA512 AESE AESD PREP,
+  (forall x, length (SHA256 x) = 32%nat) -> (forall x, length (SHA384 x) = 48%nat) -> (forall x, length (SHA512 x) = 64%nat) ->
+  (forall k iv x, lenN x mod 16 = 0 -> AESD k iv (AESE k iv x) = x) -> (forall k iv x, lenN (AESE k iv x) = lenN x) ->
+  forall fuel d id0 upw p R m ms hv hk vs ks fk oe,
+  std_56_dict d R m ms -> PREP upw = Some p ->
+  lenN vs = 8 -> lenN ks = 8 -> lenN fk = 32 ->
+  hash56 SHA256 SHA384 SHA512 AESE R fuel (pw56 p) vs [] = Some hv ->
+  hash56 SHA256 SHA384 SHA512 AESE R fuel (pw56 p) ks [] = Some hk ->
+  d_u d = alg8_U hv vs ks -> d_ue d = Some (alg8_UE AESE hk fk) ->
+  lenN (d_o d) = 48 -> d_oe d = Some oe -> lenN oe mod 16 = 0 ->
+  from_password (fun x => Ok (MD5 x)) (fun x => Ok (SHA256 x)) (fun x => Ok (SHA384 x)) (fun x => Ok (SHA512 x))
+                (fun k iv x => Ok (AESE k iv x)) (fun k iv x => Ok (AESD k iv x)) (fun x => Ok (PREP x)) fuel d id0 upw
+  = Ok (decoder_with fk 32 m ms (em_of d)).
+Check C06_open_owner_56_key : forall MD5 SHA256 SHA384 SHA512 AESE AESD PREP,
+  (forall x, length (SHA256 x) = 32%nat) -> (forall x, length (SHA384 x) = 48%nat) -> (forall x, length (SHA512 x) = 64%nat) ->
+  (forall k iv x, lenN x mod 16 = 0 -> AESD k iv (AESE k iv x) = x) -> (forall k iv x, lenN (AESE k iv x) = lenN x) ->
+  forall fuel d id0 opw p R m ms hx ho hk vs ks fk ue,
+  std_56_dict d R m ms -> PREP opw = Some p ->
+  lenN vs = 8 -> lenN ks = 8 -> lenN fk = 32 ->
+  lenN (d_u d) = 48 -> d_ue d = Some ue -> lenN ue mod 16 = 0 ->
+  hash56 SHA256 SHA384 SHA512 AESE R fuel (pw56 p) (vsalt (d_u d)) [] = Some hx -> hx <> take 32 (d_u d) ->
+  hash56 SHA256 SHA384 SHA512 AESE R fuel (pw56 p) vs (d_u d) = Some ho ->
+  hash56 SHA256 SHA384 SHA512 AESE R fuel (pw56 p) ks (d_u d) = Some hk ->
+  d_o d = alg9_O ho vs ks -> d_oe d = Some (alg9_OE AESE hk fk) ->
+  from_password (fun x => Ok (MD5 x)) (fun x => Ok (SHA256 x)) (fun x => Ok (SHA384 x)) (fun x => Ok (SHA512 x))
+                (fun k iv x => Ok (AESE k iv x)) (fun k iv x => Ok (AESD k iv x)) (fun x => Ok (PREP x)) fuel d id0 opw
+  = Ok (decoder_with fk 32 m ms (em_of d)).
+Check C06_opened_56_reads : forall MD5 AESE AESD, (forall k iv x, lenN x mod 16 = 0 -> AESD k iv (AESE k iv x) = x) -> (forall k iv x, lenN (AESE k iv x) = lenN x) ->
+  (forall x, length (MD5 x) = 16%nat) ->
+  forall r fk m ms em, r = Ok (decoder_with fk 32 m ms em) -> lenN fk = 32 -> meth_fits 32 m -> meth_fits 32 ms ->
+  exists dc, r = Ok dc /\
+    forall enc meta num gen iv data, lenN iv = 16 ->
+      let dc' := install dc enc meta in
+      decrypt (fun x => Ok (MD5 x)) (fun k iv x => Ok (AESD k iv x)) dc' num gen (protect_bytes MD5 AESE m fk enc meta (negb (k_em dc)) num gen iv data) = Ok data /\
+      ctx_decrypt (fun x => Ok (MD5 x)) (fun k iv x => Ok (AESD k iv x)) (Some dc') num gen (protect_bytes MD5 AESE ms fk enc meta (negb (k_em dc)) num gen iv data) = Ok data.
 Check C06_exempt : forall MD5 AESD dc enc meta data,
   (forall num gen, enc = Some (num, gen) ->
      decrypt (fun x => Ok (MD5 x)) (fun k iv x => Ok (AESD k iv x)) (install dc enc meta) num gen data = Ok data /\
